@@ -31,3 +31,56 @@ Theorem C20_recovery : forall (faults : list exchange) x asked maxt,
   last (map (fun e => osrm_rows e asked maxt) (faults ++ [x])) (Ok []) = osrm_rows x asked maxt.
 Proof. exact C20_no_memory. Qed.
 Print Assumptions C20_recovery.
+
+(* --- the reply handling AS THE SOURCE WRITES IT NOW (gen/OsrmReply.v: the body of
+   OsrmGeoFilter::getAccessibleNodesFootpathsFromPoint after the pre-filter loop, read by tools/gen_osrm.py as a statement
+   tree; coq/OsrmCode.v interprets it over `exchange` / `json`) --- *)
+Require TrV.OsrmCode TrV.gen.OsrmReply.
+From TrV Require Proofs.OsrmTie.
+Module RC.
+  Import TrV.OsrmCode TrV.Proofs.OsrmTie.
+
+  (* the model of this property IS the source's reply handling: the early return, the request inside the try with the
+     status test, the catch, the parse outside it, the four null tests in source order (`&&` stops at the first false one),
+     the two sizes, the loop from 1 while i < numberOfDurations, the distance read under the time guard, stop i - 1 -
+     for EVERY exchange, candidate list, maximum, direction, and whatever a `return` of something else than the rows
+     might return *)
+  Theorem C20_reply_handling_is_code : forall (other : list fprow) (reversed : bool) (x : exchange) (asked : list nat) (maxt : Z),
+    osrm_rows x asked maxt = run_reply other reversed x asked maxt GO.gen_osrm_reply.
+  Proof. exact reply_tie. Qed.
+
+  (* regression: the reply {"durations":[null],"distances":5} - entry 0 of durations null, distances not an array - gets
+     the empty list (a no-access answer) from the model and from the source's tree: `&&` never evaluates distances[0].
+     (The first version of the tie above found that Osrm.osrm_rows answered Exn 3 - a query error - on this shape.) *)
+  Theorem C20_reply_short_circuit_regression :
+    osrm_rows (XStatus true (Some (JObj [(K_DURATIONS, JArr [JNull]); (K_DISTANCES, JNum 50)]))) [7%nat] 600 = Ok [] /\
+    run_reply [] false (XStatus true (Some (JObj [(K_DURATIONS, JArr [JNull]); (K_DISTANCES, JNum 50)]))) [7%nat] 600 GO.gen_osrm_reply = Ok [] /\
+    run_reply [] true (XStatus true (Some (JObj [(K_DURATIONS, JArr [JNull]); (K_DISTANCES, JNum 50)]))) [7%nat] 600 GO.gen_osrm_reply = Ok [].
+  Proof. exact short_circuit_reply_regression. Qed.
+
+  (* structural facts read off the regenerated tree: the request and the status test are inside the try (and nowhere
+     else); a non-200 status and a caught exception both return the EMPTY list; the parse is outside the try, so a body that
+     is not JSON leaves the function as an exception; the four null tests (in source order) stand above every size /
+     indexed / converted read and there is no other null test; the distance is converted only under the time guard; sizes are
+     read before the loop; the query string is annotations + destinations=0 (reversed) / sources=0, sent by the GET *)
+  Theorem C20_reply_frame_is_code :
+    (in_try is_request GO.gen_osrm_reply = true /\ out_of_try is_request GO.gen_osrm_reply = false /\
+     in_try is_status_test GO.gen_osrm_reply = true /\ out_of_try is_status_test GO.gen_osrm_reply = false) /\
+    (forall (other : list fprow) (reversed : bool) (asked : list nat) (maxt : Z),
+       (forall b : option json, run_reply other reversed (XStatus false b) asked maxt GO.gen_osrm_reply = Ok []) /\
+       run_reply other reversed XThrow asked maxt GO.gen_osrm_reply = Ok []) /\
+    (in_try is_parse GO.gen_osrm_reply = false /\ out_of_try is_parse GO.gen_osrm_reply = true) /\
+    (forall (other : list fprow) (reversed : bool) (asked : list nat) (maxt : Z), asked <> [] ->
+       run_reply other reversed (XStatus true None) asked maxt GO.gen_osrm_reply = Exn 3%nat) /\
+    (reads_guarded false GO.gen_osrm_reply = true /\ null_tests_only_in_four GO.gen_osrm_reply = true /\
+     has_loop GO.gen_osrm_reply = true) /\
+    (distance_guarded false GO.gen_osrm_reply = true /\ distance_guarded false GO.gen_osrm_row_body = true) /\
+    (sizes_first GO.gen_osrm_reply = true /\ sizes_first GO.gen_osrm_row_body = true) /\
+    (query_parts true GO.gen_osrm_reply = [QAnnotations; QDestinations0] /\
+     query_parts false GO.gen_osrm_reply = [QAnnotations; QSources0] /\
+     in_try request_is_get_of_query GO.gen_osrm_reply = true).
+  Proof. exact reply_frame. Qed.
+End RC.
+Print Assumptions RC.C20_reply_handling_is_code.
+Print Assumptions RC.C20_reply_short_circuit_regression.
+Print Assumptions RC.C20_reply_frame_is_code.
